@@ -174,13 +174,17 @@ def draw_params(rng):
                 parallelize=False, round_val=int(rng.choice([1, 2, 3, 4])))
 
 
-def gen_pairs(rng, n):
+def gen_pairs(rng, n, pure=None):
     """(y_true, y_pred) with piecewise-constant class prior and per-class error rates"""
     out = []
+    pure = (rng.random() < 0.15) if pure is None else pure  # long runs of a single outcome: rates that round to exactly 0 or 1 while the denominators grow
     while len(out) < n:
         L = int(rng.integers(10, 120))
         prior = float(rng.choice([0.2, 0.5, 0.8]))
         e1, e0 = float(rng.choice([0.02, 0.1, 0.3, 0.6])), float(rng.choice([0.02, 0.1, 0.3, 0.6]))
+        if pure:
+            prior = float(rng.choice([0.0, 1.0, 0.5, 0.5]))
+            e1, e0 = float(rng.choice([0.0, 1.0])), float(rng.choice([0.0, 1.0]))
         for _ in range(L):
             yt = int(rng.random() < prior)
             err = rng.random() < (e1 if yt else e0)
@@ -280,7 +284,15 @@ def run_case(case, ctx):
     else:
         rng = gen.rng_for(case["seed"])
         kw = draw_params(rng)
-        pairs = gen_pairs(rng, int(rng.integers(120, 320)))
+        pure = bool(rng.random() < 0.15)
+        if pure:
+            # coarse rounding with rates stuck at the ends of the scale: cache keys (1.0, N) and (0.0, N + 1) occur side by side
+            kw["round_val"] = 1
+            kw["burn_in"] = min(kw["burn_in"], 10)
+            if rng.random() < 0.7:
+                kw["rates_tracked"] = list(RATES)
+            ctx.count("pure_outcome_histories")
+        pairs = gen_pairs(rng, int(rng.integers(120, 320)), pure=pure)
     det = gen.construct(LinearFourRates, kw, case, ctx)
     model = LFRModel(kw)
     resets = set(case.get("literal", {}).get("resets", []))
